@@ -842,7 +842,7 @@ func checkC18(c *Ctx, r *Report) {
 			}
 			sites = append(sites, fmt.Sprintf("%s %s %s", c.instrPos(a.Instr), map[bool]string{true: "write", false: "read"}[a.Write], heldStr(a.Held)))
 		}
-		key := t[0] + "." + t[1] + ":lockset"
+		key := c.stableFieldKey(t[0], t[1]) + ":lockset"
 		switch {
 		case n == 0 || writes == 0:
 			r.okTrivial("R3", key, "-", "written only at construction")
